@@ -14,6 +14,7 @@ from . import tlc as tlcmod
 from .resulthistory import CALLS, _inputs, _tuple
 
 DT = torch.float64
+_E = torch.tensor([-0.5, -1.2], dtype=DT)      # (negative shifts: A - e M stays positive definite under every refresh)
 
 # name -> (buffers refreshed in place, make(inp) -> long-lived object or None, use(obj, inp) -> result)
 PERSIST = {
@@ -24,6 +25,15 @@ PERSIST = {
     "squad-instance:simpson": (["ys"], lambda i: xitorch.integrate.SQuad(i["xs"], method="simpson"), lambda o, i: o.integrate(i["ys"])),
     "linop-instance:solve": (["A", "B"], lambda i: LinearOperator.m(i["A"], is_hermitian=True), lambda o, i: xitorch.linalg.solve(o, i["B"])),
     "linop-instance:solve-cg": (["A", "B"], lambda i: LinearOperator.m(i["A"], is_hermitian=True), lambda o, i: xitorch.linalg.solve(o, i["B"], method="cg")),
+    # the generalised problems: the metric M is a long-lived operator too (an overlap matrix updated in place between the solves)
+    "linop-instance:solve-EM": (["A", "B", "M"], lambda i: (LinearOperator.m(i["A"], is_hermitian=True), LinearOperator.m(i["M"], is_hermitian=True)),
+                                lambda o, i: xitorch.linalg.solve(o[0], i["B"], _E, M=o[1])),
+    "linop-instance:solve-EM-cg": (["A", "B", "M"], lambda i: (LinearOperator.m(i["A"], is_hermitian=True), LinearOperator.m(i["M"], is_hermitian=True)),
+                                   lambda o, i: xitorch.linalg.solve(o[0], i["B"], _E, M=o[1], method="cg", rtol=1e-13, atol=1e-15)),
+    "linop-tensors:solve-EM": (["A", "B", "M"], lambda i: None,
+                               lambda o, i: xitorch.linalg.solve(LinearOperator.m(i["A"], is_hermitian=True), i["B"], _E, M=LinearOperator.m(i["M"], is_hermitian=True))),
+    "linop-instance:symeig-M": (["A", "M"], lambda i: (LinearOperator.m(i["A"], is_hermitian=True), LinearOperator.m(i["M"], is_hermitian=True)),
+                                lambda o, i: xitorch.linalg.symeig(o[0], neig=2, M=o[1])[0]),
     "linop-instance:symeig": (["A"], lambda i: LinearOperator.m(i["A"], is_hermitian=True), lambda o, i: xitorch.linalg.symeig(o, neig=2)[0]),
     "linop-instance:fullmatrix": (["A"], lambda i: LinearOperator.m(i["A"], is_hermitian=True) + LinearOperator.m(i["A"], is_hermitian=True) * 2.0, lambda o, i: o.fullmatrix()),
 }
@@ -38,7 +48,7 @@ def _refresh(inp, name, step):
     """new content in place, keeping the structure the call needs (A stays symmetric positive definite, grids stay sorted, queries inside)"""
     t = inp[name]
     with torch.no_grad():
-        if name == "A":
+        if name in ("A", "M"):
             t.add_(torch.eye(t.shape[-1], dtype=t.dtype) * (0.3 + 0.1 * step))
             t.mul_(1.0 + 0.05 * step)
         elif name == "ts":
@@ -80,17 +90,20 @@ def replay(ctx, names, prefix, maxlen=4):
                     with torch.no_grad():
                         obj = make(inp)
                         step = 0
+                        # first the whole history on the long-lived objects (nothing else touches the library in between: a reference
+                        # computation interleaved with the uses would itself overwrite whatever the library memoises), then the references
+                        uses = []
                         for pos, (a, b) in enumerate(hist):
                             if a == "refresh":
                                 _refresh(inp, bufs[b - 1], step)
                                 step += 1
                                 continue
                             torch.manual_seed(3)
-                            got = _tuple(use(obj, inp))
-                            fresh_inp = {k: v.clone() for k, v in inp.items()}
+                            uses.append((pos, [x.clone() for x in _tuple(use(obj, inp))], {k: v.clone() for k, v in inp.items()}))
+                        for pos, got, fresh_inp in uses:
                             torch.manual_seed(3)
                             ref = _tuple(use(make(fresh_inp), fresh_inp))
-                            if not all(x.shape == y.shape and torch.allclose(x, y, atol=1e-12, rtol=1e-11, equal_nan=True) for x, y in zip(got, ref)):
+                            if not all(x.shape == y.shape and torch.allclose(x, y, atol=(1e-9 if name.endswith("-cg") else 1e-12), rtol=1e-11, equal_nan=True) for x, y in zip(got, ref)):
                                 dev = max(float((x - y).abs().max()) for x, y in zip(got, ref) if x.shape == y.shape)
                                 why = "use %d differs from a fresh computation on the current content by %.2e" % (pos + 1, dev)
                                 break
